@@ -2078,6 +2078,14 @@ def _rxspecies(case, out):
 
     def reactions(slot, st):
         return {"alone": [st], "first-of-two": [st, other], "second-of-two": [other, st]}[slot]
+    if form == "dict" and route != "RDNetwork":
+        # a [substrates, products] pair inside a reaction DICTIONARY is accepted by the code but documented only for
+        # the Reaction constructor: if the valid form stops working there, nothing is claimed for this route
+        try:
+            _rx_attempt(route, [other])()
+        except Exception:
+            out.count("route_unavailable_not_claimed:reaction-dict-stoichiometry")
+            return False
     k = 0
     for name, side, subs, prods in RX_TEMPLATES:
         # valid counterpart: the same shape over declared species only
